@@ -6,6 +6,7 @@
 package gocql
 
 import (
+	"bytes"
 	"encoding/json"
 	"fmt"
 	"math"
@@ -1137,6 +1138,8 @@ type vxSchResult struct {
 	mdErr     error
 	processed bool
 	stmtErr   error
+	rkey      []byte
+	rkeyErr   error
 	stmtRun   bool
 }
 
@@ -1179,8 +1182,13 @@ func TestVxC05Schema(t *testing.T) {
 		Rule: "a real session (protocol 1..4; nodes report release_version 2.0/2.1/2.2 = system.schema_* tables or 3.11/4.0 = system_schema.*; token-aware policy; with or without a session keyspace) against scripted nodes that answer every schema query of the driver (PREPARE/EXECUTE of SELECT <cols> FROM <schema table>; the SELECT list is parsed so the rows carry exactly the requested columns) from a generated schema description: keyspace row, 0-3 tables (CQL3 and compact layouts, 1-3 partition key and 0-3 clustering columns, regular/static/collection columns, ReversedType/CompositeType/ColumnToCollectionType validators or CQL type strings), user types, functions, aggregates, materialized views - consistent first, then 0..3 drawn oddities (aggregate whose final/state function is null or unlisted; key column position negative/duplicate/beyond/huge; partition key column missing; unknown kind; malformed/empty/deeply nested type string; null cell; a column declared with another CQL type; columns of an unlisted table; table without columns; odd replication options and factors; 0 or 2 keyspace rows; duplicate rows; view without base table; odd key_validator/comparator/aliases/index_options JSON; name and type lists of different lengths; a schema table the node does not have). Driver side: CreateSession, KeyspaceMetadata twice, a prepared statement whose routing key needs the table's partition key, 1-6 SCHEMA_CHANGE events (CREATED/UPDATED/DROPPED x KEYSPACE/TABLE/TYPE/FUNCTION/AGGREGATE), in a quarter of the cases a wait for the 1 s event debouncer, KeyspaceMetadata again, Close. Oracle: every call returns a value or an error within 30 s; no panic in the caller's goroutine (recovered and reported) nor on a driver goroutine (the process dies and the persisted case is blamed); total allocation <= 16 MiB + 64 x bytes of the schema answers; with no oddity KeyspaceMetadata succeeds and reports the tables, partition keys, clustering columns, columns, types, functions, aggregates and views of the description, and the statement executes. Non-trivial = at least one oddity; distinct by the case",
 		Draw: func(t *rapid.T) interface{} { return vxSchDraw(t) },
 		New:  func() interface{} { return &vxC05SchCase{} },
-		Run: func(ci interface{}, k *vstats.Case) error {
-			c := ci.(*vxC05SchCase)
+		Run: func(ci interface{}, k *vstats.Case) error { return vxSchRunCase(ci.(*vxC05SchCase), k, nil) },
+	})
+}
+
+// vxSchRunCase runs one schema case. rk (may be nil) receives what Query.GetRoutingKey returned for the
+// prepared statement.
+func vxSchRunCase(c *vxC05SchCase, k *vstats.Case, rk *vxSchRK) error {
 			okVersion := false
 			for _, v := range vxSchVersions[c.Proto] {
 				okVersion = okVersion || v == c.Version
@@ -1317,8 +1325,9 @@ func TestVxC05Schema(t *testing.T) {
 					conds[i] = b + " = ?"
 				}
 				q := s.Query("SELECT v FROM "+c.StmtTbl+" WHERE "+strings.Join(conds, " AND "), args...)
-				_, err = q.GetRoutingKey()
+				key, err := q.GetRoutingKey()
 				note("GetRoutingKey", err)
+				res.rkey, res.rkeyErr = key, err
 				res.stmtErr = q.Exec()
 				res.stmtRun = true
 				note("prepared statement", res.stmtErr)
@@ -1366,6 +1375,9 @@ func TestVxC05Schema(t *testing.T) {
 				return fmt.Errorf("the calls did not return within 30 s (oddities %v):\n%s", c.Oddities, vxGoroutineDump())
 			}
 			runtime.ReadMemStats(&m1)
+			if rk != nil {
+				rk.key, rk.err, rk.run = res.rkey, res.rkeyErr, res.stmtRun
+			}
 			if res.panicked != "" {
 				// the session is abandoned; closing it may meet locks the panic left behind
 				sessMu.Lock()
@@ -1494,6 +1506,121 @@ func TestVxC05Schema(t *testing.T) {
 				return fmt.Errorf("consistent schema: the prepared statement on %s failed: %v", c.StmtTbl, res.stmtErr)
 			}
 			return nil
+}
+
+// vxSchRK is what Query.GetRoutingKey returned for the case's prepared statement.
+type vxSchRK struct {
+	key []byte
+	err error
+	run bool
+}
+
+// TestVxC09SchemaRoutingKey (C09): below protocol 4 - and in protocol 4 when PREPARED carries no
+// partition-key indexes - the routing key is assembled from the table metadata read from the schema tables:
+// the bound column named like the i-th partition key column supplies the i-th component. The schema cases
+// of TestVxC05Schema without oddities are reused, with the statement's bound columns in a drawn order.
+func TestVxC09SchemaRoutingKey(t *testing.T) {
+	vx.Check(t, vx.Prop{ID: "C09", Part: "TestVxC09SchemaRoutingKey",
+		Rule: "a consistent generated schema (TestVxC05Schema's generator without oddities: protocol 1..4, system.schema_* or system_schema.* tables, 1-3 partition key columns) and a prepared statement binding the partition key columns (int values 7, 8, ...) in a drawn order, possibly with one more bound column in between, with one key column left out, or with a column bound twice (the first binding counts); the PREPARED response carries no partition-key indexes, so the driver takes the key from the table metadata; oracle: GetRoutingKey() = the components in partition-key order (raw for one, len16|bytes|0 each otherwise), or no key when a key column is not bound; non-trivial = >= 2 key columns bound out of key order; distinct by the case",
+		Draw: func(t *rapid.T) interface{} {
+			var c *vxC05SchCase
+			for try := 0; try < 40; try++ {
+				c = vxSchDraw(t)
+				if len(c.Oddities) == 0 && c.StmtTbl != "ghost" {
+					break
+				}
+				c = nil
+			}
+			if c == nil {
+				return &vxC05SchCase{}
+			}
+			c.Events, c.Wait = nil, false
+			// bound columns: the key columns in a drawn order, sometimes one missing, sometimes an extra one
+			var pk []string
+			for _, e := range c.Expect {
+				if e.Table == c.StmtTbl {
+					pk = e.PK
+				}
+			}
+			binds := append([]string{}, pk...)
+			if len(binds) > 1 && rapid.IntRange(0, 1).Draw(t, "permute") == 0 {
+				binds = rapid.Permutation(binds).Draw(t, "order")
+			}
+			if len(binds) > 1 && rapid.IntRange(0, 5).Draw(t, "drop") == 0 {
+				binds = binds[1:]
+			}
+			if rapid.IntRange(0, 2).Draw(t, "extra") == 0 {
+				pos := rapid.IntRange(0, len(binds)).Draw(t, "extrapos")
+				binds = append(binds[:pos:pos], append([]string{"other"}, binds[pos:]...)...)
+			}
+			if len(binds) > 0 && rapid.IntRange(0, 4).Draw(t, "dup") == 0 {
+				// the same column bound twice (pk = ? AND pk = ?): the code documents "pick the first"
+				binds = append(binds, binds[rapid.IntRange(0, len(binds)-1).Draw(t, "dupwhich")])
+			}
+			c.Binds = binds
+			return c
 		},
-	})
+		New: func() interface{} { return &vxC05SchCase{} },
+		Run: func(ci interface{}, k *vstats.Case) error {
+			c := ci.(*vxC05SchCase)
+			if len(c.Oddities) != 0 || c.StmtTbl == "" || c.StmtTbl == "ghost" || len(c.Binds) == 0 {
+				return nil
+			}
+			var pk []string
+			for _, e := range c.Expect {
+				if e.Table == c.StmtTbl {
+					pk = e.PK
+				}
+			}
+			if len(pk) == 0 {
+				return nil
+			}
+			rk := &vxSchRK{}
+			if err := vxSchRunCase(c, k, rk); err != nil {
+				return err
+			}
+			if !rk.run {
+				return nil // session creation failed: reported by the C05 part, not a routing matter
+			}
+			// the value bound at position i is 7+i (int): component = 4 bytes big endian
+			var comps [][]byte
+			missing, outOfOrder, last := false, false, -1
+			for _, name := range pk {
+				at := -1
+				for i, b := range c.Binds {
+					if b == name {
+						at = i
+						break
+					}
+				}
+				if at < 0 {
+					missing = true
+					break
+				}
+				if at < last {
+					outOfOrder = true
+				}
+				last = at
+				v := 7 + at
+				comps = append(comps, []byte{byte(v >> 24), byte(v >> 16), byte(v >> 8), byte(v)})
+			}
+			k.Class(fmt.Sprintf("key-columns=%d", len(pk)))
+			if missing {
+				k.Class("a key column is not bound")
+				if rk.err != nil || len(rk.key) != 0 {
+					return fmt.Errorf("partition key %v, bound columns %v: GetRoutingKey() = %x, %v; want no key and no error", pk, c.Binds, rk.key, rk.err)
+				}
+				return nil
+			}
+			if outOfOrder {
+				k.NonTrivial()
+			}
+			if rk.err != nil {
+				return fmt.Errorf("partition key %v, bound columns %v: GetRoutingKey failed: %v", pk, c.Binds, rk.err)
+			}
+			if want := cqlspec.RoutingKey(comps); !bytes.Equal(rk.key, want) {
+				return fmt.Errorf("partition key %v, bound columns %v (values 7, 8, ...): GetRoutingKey() = %x, want %x", pk, c.Binds, rk.key, want)
+			}
+			return nil
+		}})
 }
